@@ -554,6 +554,10 @@ class SArr(Model):
         if varr is not None:
             # numpy broadcasting of the value into the target region
             varr = broadcast_to(it, varr, vshape)
+            if self.dtype == 'int' and varr.dtype == 'real':
+                # a float array stored into an integer array is truncated element by element (numpy casts silently)
+                it.ctx.note_trusted("storing float values into an integer-dtype array truncates them toward zero")
+                varr = SArr(varr.shape, (lambda g_: (lambda o: coerce_elem(g_(o), 'int')))(varr.get), 'int')
 
         def get(o):
             cond = []
@@ -704,6 +708,9 @@ def coerce_elem(v, dtype):
         return z3bool(v)
     if dtype == 'int':
         n = to_num(v)
+        if isinstance(n, z3.ArithRef) and not n.is_int():
+            # numpy stores a float into an integer array by truncating it toward zero, silently
+            return z3.If(n >= 0, z3.ToInt(n), -z3.ToInt(-n))
         return n
     return to_real(v)
 
